@@ -319,7 +319,10 @@ Theorem C18_sampler_ratio : forall (tbl : list cand) (i : nat) (c : cand),
 Proof. exact samp_w_ratio. Qed.
 Print Assumptions C18_sampler_ratio.
 
-(* ---- non-vacuity *)
+(* ---- non-vacuity.  NOTE: [stream_choice] replays a prescribed list of draws and does NOT itself satisfy
+   [choice_contract]; the Examples using it show that the model runs on concrete inputs (the hand-picked draws
+   respect the contract for these inputs).  The hypotheses of the theorems are instantiated with a contract-abiding
+   oracle in C18_oracle_cyclic / C18_contract_runs_nonvacuous below. *)
 (* an oracle meeting the contract exists *)
 Example C18_oracle_exists : choice_contract const_choice.
 Proof. exact const_choice_contract. Qed.
